@@ -68,7 +68,7 @@ def float_safe_fir(coefs, spec_ks, spec_err):
 def m2(ctx, al, cfg):
     d = tlc.scratch_dir("c11")
     dump = os.path.join(d, "states")
-    r = tlc.require_ok(tlc.run("LpcC11", cfg, dump=dump), "LpcC11",
+    r = tlc.require_ok(tlc.run(cfg[:-4], cfg, dump=dump), cfg[:-4],
                        need_actions=("LdStep", "LdFinish", "PcStep", "PcFinish", "StStep", "StFinish"))
     ctx.add_tlc(r, "Lpc (C11 grid): step-down inverts step-up / Levinson, error product, Schur-Cohn == pole locations")
     nstates = 0
@@ -381,9 +381,9 @@ def check(ctx):
         "poles are known by construction (denominator = gain * product of root factors; RootsAreRoots checks it in TLC)",
     ]
     if ctx.thorough:
-        m2(ctx, al, "LpcC11_thorough.cfg")
+        m2(ctx, al, "LpcC11T.cfg")
         m3(ctx, al, 1500)
     else:
-        m2(ctx, al, "LpcC11_quick.cfg")
+        m2(ctx, al, "LpcC11Q.cfg")
         m3(ctx, al, 150)
     ctx.exhaustive = True
